@@ -245,14 +245,14 @@ theorem serve_inv_nonkill (c : Cfg) (s : St) (op : Op) (h : Inv s) (hr : op.isRe
     Inv (serve c s op).1 := by
   cases ha : s.active
   · obtain ⟨h1, h2, h3, h3', h4, h5, h6⟩ := h
-    cases op <;> simp only [Op.isRequest] at hr <;> simp only [serve, step, spawn, stopBasic, ctlTransition, reapCtl, escalate]
+    cases op <;> simp only [Op.isRequest] at hr <;> simp only [serve, step, spawn, stopBasic, ctlTransition, reapCtl, escalate, giveUp]
     all_goals (repeat' split)
     all_goals (refine ⟨?_, ?_, ?_, ?_, ?_, ?_, ?_⟩ <;> simp_all [not_mem_of_terminals_zero, Kind.basicLike])
   · rw [serve_eq_step c s op ha]; exact step_inv c s op h
 
 theorem serve_active_nonkill (c : Cfg) (s : St) (op : Op) (hr : op.isRequest = true) (hk : op ≠ .kill)
     (ha : s.active = true) : (serve c s op).1.active = true := by
-  cases op <;> simp only [Op.isRequest] at hr <;> simp only [serve, step, spawn, stopBasic, ctlTransition, reapCtl, escalate]
+  cases op <;> simp only [Op.isRequest] at hr <;> simp only [serve, step, spawn, stopBasic, ctlTransition, reapCtl, escalate, giveUp]
   all_goals (repeat' split)
   all_goals simp_all
 
@@ -862,7 +862,7 @@ theorem serve_kind (c : Cfg) (s : St) (op : Op) : (serve c s op).1.kind = s.kind
 
 theorem serve_cmd_nonkill (c : Cfg) (s : St) (op : Op) (hr : op.isRequest = true) (hk : op ≠ .kill)
     (hc : s.cmd = true) : (serve c s op).1.cmd = true := by
-  cases op <;> simp only [Op.isRequest] at hr <;> simp only [serve, step, spawn, stopBasic, ctlTransition, reapCtl, escalate]
+  cases op <;> simp only [Op.isRequest] at hr <;> simp only [serve, step, spawn, stopBasic, ctlTransition, reapCtl, escalate, giveUp]
   all_goals (repeat' split)
   all_goals simp_all
 
@@ -1290,7 +1290,7 @@ theorem par_includes_seq (c : Cfg) (s : St) (a b : Op) (hl : s.loop = true) (hra
 
 theorem step_active_halts_eq_stuck (c : Cfg) (s : St) (op : Op) (ha : s.active = true) :
     (step c s op).2.halts = (step c s op).2.stuck := by
-  cases op <;> simp only [step, spawn, stopBasic, ctlTransition, reapCtl, escalate, ha]
+  cases op <;> simp only [step, spawn, stopBasic, ctlTransition, reapCtl, escalate, giveUp, ha]
   all_goals (repeat' split)
   all_goals simp_all [Res.halts, Res.stuck]
 
